@@ -125,6 +125,9 @@ func sourceVerdict(p *Prog) (reject bool, why, tag string) {
 				if d.Val.Kind == 'r' && d.Val.R == d.Name {
 					set("constant "+d.Name+" is defined as itself", "")
 				}
+				if constReaches(f, d, d, map[*Def]bool{}) {
+					set("constant "+d.Name+" needs its own value", "")
+				}
 				for _, d2 := range f.Defs {
 					if d2.Kind == 'C' && d2 != d && d.Val.Kind == 'r' && d.Val.R == d2.Name && d2.Val.Kind == 'r' && d2.Val.R == d.Name {
 						set("constants "+d.Name+" and "+d2.Name+" are defined as each other", "")
@@ -491,7 +494,7 @@ func plantNumeric(r *rng.R, p *Prog, g *gen) string {
 		return label
 	}
 	// one planted defect that the compiler must reject
-	kind := r.Intn(17)
+	kind := r.Intn(18)
 	switch {
 	case kind == 0 && len(structs) > 0:
 		s := structs[r.Intn(len(structs))]
@@ -622,6 +625,47 @@ func plantNumeric(r *rng.R, p *Prog, g *gen) string {
 			f.Defs = append(f.Defs, &Def{Kind: 'C', Name: n, Ty: ty, Val: &CV{Kind: 'r', R: n2}}, &Def{Kind: 'C', Name: n2, Ty: ty, Val: &CV{Kind: 'r', R: n}})
 		}
 		label = "constant defined in terms of itself"
+	case kind == 17:
+		// a constant that needs its own value through a struct / list / map literal of a recursive
+		// struct type (cycle length 1 or 2; the closing field declared directly or through a typedef)
+		f := p.Files[r.Intn(len(p.Files))]
+		sn, tn := g.name("Rec"), g.name("RecT")
+		ft := &TExpr{Kind: "ref", Name: sn}
+		if r.Bool() {
+			ft = &TExpr{Kind: "ref", Name: tn}
+		}
+		shape := r.Intn(3)
+		var fieldTy *TExpr
+		wrap := func(v *CV) *CV { return v }
+		switch shape {
+		case 0:
+			fieldTy = ft
+		case 1:
+			fieldTy = &TExpr{Kind: "list", A: ft}
+			wrap = func(v *CV) *CV { return &CV{Kind: 'l', L: []*CV{v}} }
+		default:
+			fieldTy = &TExpr{Kind: "map", A: &TExpr{Kind: "string"}, B: ft}
+			wrap = func(v *CV) *CV { return &CV{Kind: 'm', M: [][2]*CV{{{Kind: 's', S: "k"}, v}}} }
+		}
+		f.Defs = append(f.Defs,
+			&Def{Kind: 'S', SKind: 's', Name: sn, Fields: []*Field{{ID: i64p(1), Name: "value", Req: 'r', Ty: &TExpr{Kind: "i32"}}, {ID: i64p(2), Name: "tail", Req: 'o', Ty: fieldTy}}},
+			&Def{Kind: 'T', Name: tn, Ty: &TExpr{Kind: "ref", Name: sn}})
+		lit := func(next string) *CV {
+			return &CV{Kind: 'm', M: [][2]*CV{{{Kind: 's', S: "value"}, {Kind: 'i', I: 1}}, {{Kind: 's', S: "tail"}, wrap(&CV{Kind: 'r', R: next})}}}
+		}
+		n := g.name("c")
+		cty := &TExpr{Kind: "ref", Name: []string{sn, tn}[r.Intn(2)]}
+		if r.Bool() {
+			f.Defs = append(f.Defs, &Def{Kind: 'C', Name: n, Ty: cty, Val: lit(n)})
+		} else {
+			n2 := g.name("c")
+			second := lit(n)
+			if r.Bool() {
+				second = &CV{Kind: 'r', R: n}
+			}
+			f.Defs = append(f.Defs, &Def{Kind: 'C', Name: n, Ty: cty, Val: lit(n2)}, &Def{Kind: 'C', Name: n2, Ty: cty, Val: second})
+		}
+		label = "constant defined in terms of itself through a literal"
 	case kind == 16:
 		f := p.Files[r.Intn(len(p.Files))]
 		n := g.name("V")
@@ -660,5 +704,42 @@ func runC09(c *checker, r *rng.R) {
 		c09Program(c, p, "generated", "")
 	}
 	c.flush()
-	c.rep.Rule = "programs whose numeric literals sit around every type boundary (0, ±1, ±2^7, ±2^15, ±2^31, ±2^63 and neighbours; decimal, +signed, zero-padded decimal and hex spellings): field identifiers explicit / unset (auto-negative in non-strict mode), enum values explicit / implicit, integer constants and defaults of i8/i16/i32/i64/double/bool/enum types (also inside lists, maps, struct literals, through typedefs), strict and non-strict mode; 40% carry one planted defect the compiler must reject (identifier above 32767 / below 1 / below -32768 / unset / duplicate, duplicate names, literal beyond int64, enum value outside int32, integer constant or default outside its i8/i16/i32 type, bool other than 0/1, enum value that is no item or equals one only modulo 2^32, constant or service defined in terms of itself); oracle: compiled numbers equal the source and lie in range, else rejected; compared with the Lean model; every case non-trivial; distinct by program. The shapes of the repaired findings D5 D6 D7 D8 D9 are ordinary planted defects and corpus entries."
+	c.rep.Rule = "programs whose numeric literals sit around every type boundary (0, ±1, ±2^7, ±2^15, ±2^31, ±2^63 and neighbours; decimal, +signed, zero-padded decimal and hex spellings): field identifiers explicit / unset (auto-negative in non-strict mode), enum values explicit / implicit, integer constants and defaults of i8/i16/i32/i64/double/bool/enum types (also inside lists, maps, struct literals, through typedefs), strict and non-strict mode; 40% carry one planted defect the compiler must reject (identifier above 32767 / below 1 / below -32768 / unset / duplicate, duplicate names, literal beyond int64, enum value outside int32, integer constant or default outside its i8/i16/i32 type, bool other than 0/1, enum value that is no item or equals one only modulo 2^32, constant or service defined in terms of itself, also through struct / list / map literals of a recursive struct type); oracle: compiled numbers equal the source and lie in range, else rejected; compared with the Lean model; every case non-trivial; distinct by program. The shapes of the repaired findings D5 D6 D7 D8 D9 are ordinary planted defects and corpus entries."
+}
+
+// constReaches: does the value of `from` mention (at any depth, through other constants of the
+// file) the constant `to`?
+func constReaches(f *File, from, to *Def, seen map[*Def]bool) bool {
+	if seen[from] {
+		return false
+	}
+	seen[from] = true
+	var refs []string
+	var walk func(v *CV)
+	walk = func(v *CV) {
+		if v == nil {
+			return
+		}
+		if v.Kind == 'r' {
+			refs = append(refs, v.R)
+		}
+		for _, x := range v.L {
+			walk(x)
+		}
+		for _, kv := range v.M {
+			walk(kv[0])
+			walk(kv[1])
+		}
+	}
+	walk(from.Val)
+	for _, name := range refs {
+		for _, d := range f.Defs {
+			if d.Kind == 'C' && d.Name == name {
+				if d == to || constReaches(f, d, to, seen) {
+					return true
+				}
+			}
+		}
+	}
+	return false
 }
